@@ -1,5 +1,5 @@
 #!/bin/sh
-# usage: confirm_mut.sh <dir with patch.diff demo.rs> <name>
+# usage: confirm_mut.sh <dir with patch.diff demo.rs> <name> ["--features X"]
 # In a scratch worktree of /repo: the patch applies, the pinned suite passes with it, the demo fails with it
 # and passes without it. Prints one CONFIRM line; removes the worktree.
 d=$1; name=$2
@@ -7,11 +7,8 @@ W=/tmp/mw/c_$name
 rm -rf "$W"; mkdir -p /tmp/mw
 git -C /repo worktree add -q --detach "$W" HEAD || exit 2
 cd "$W" || exit 2
-feat=""
-grep -qi "features utf16\|--features utf16" "$d"/meta.* 2>/dev/null && feat="--features utf16"
-grep -qi "features index-positions" "$d"/meta.* 2>/dev/null && feat="--features index-positions"
-grep -qi "features pattern" "$d"/meta.* 2>/dev/null && feat="+nightly --features pattern"
-tool=""; case "$feat" in +nightly*) tool="+nightly"; feat="--features pattern";; esac
+feat="$3"
+tool=""; case "$feat" in *pattern*) tool="+nightly";; esac
 if ! git apply "$d/patch.diff" 2>/dev/null; then echo "CONFIRM $name applies=no"; cd /; git -C /repo worktree remove --force "$W"; exit 0; fi
 suite=$(cargo test --workspace --no-fail-fast --offline -j 6 2>&1 | grep -E "^test result" | grep -vc "ok\.")
 cp "$d/demo.rs" tests/zz_demo.rs
